@@ -35,6 +35,8 @@ type TxOpts struct {
 	Net     uint64
 	Chain   uint64
 	Nonce   uint64
+	// EVMChain, when non-zero, is the Ethereum chain id an RLP wrapper is signed for (instead of the one derived from Net/Chain)
+	EVMChain uint64
 }
 
 // Unsigned assembles the envelope around a message (deterministic: no clock).
@@ -84,6 +86,9 @@ func WrapRLP(msg lib.MessageI, s *Signer, v2 bool, o TxOpts) (raw []byte, tx *li
 	} else {
 		evmChain = fsm.CanopyIdsToEVMChainId(o.Chain, o.Net)
 	}
+	if o.EVMChain != 0 {
+		evmChain = o.EVMChain
+	}
 	nonce := o.Created
 	if v2 {
 		nonce = o.Nonce
@@ -129,6 +134,18 @@ func WrapRLP(msg lib.MessageI, s *Signer, v2 bool, o TxOpts) (raw []byte, tx *li
 		tx, le = fsm.RLPToCanopyTransactionV2(rlp)
 	} else {
 		tx, le = fsm.RLPToCanopyTransaction(rlp)
+	}
+	if le != nil && o.EVMChain != 0 {
+		// the product's own converter refuses this chain id; an attacker assembles the envelope by hand: the envelope of
+		// the twin signed for the assigned chain id, carrying THIS signed payload
+		o2 := o
+		o2.EVMChain = 0
+		_, twin, e2 := WrapRLP(msg, s, v2, o2)
+		if e2 != nil {
+			return nil, nil, e2
+		}
+		twin.Signature.Signature = rlp
+		return MustMarshal(twin), twin, nil
 	}
 	if le != nil {
 		return nil, nil, le
